@@ -130,6 +130,7 @@ func c13r1(c *core.Ctx) {
 		})
 	}
 	c.Count("panic_sites_reachable", sites)
+	parsedContainerUse(c, m.reach)
 	if dbg := os.Getenv("HCSA_DEBUG"); dbg != "" {
 		for _, f := range core.SortedFuncs(m.reach) {
 			if !strings.Contains(fname(f), dbg) {
@@ -696,5 +697,54 @@ func c13r5(c *core.Ctx) {
 		} else {
 			c.Check(n > 0, key, mo.handle.Pos(), fmt.Sprintf("%d rejected-start path(s), each leaves step == %d (the state in which a start is accepted)", n, rs.val), "no rejected-start path found")
 		}
+	}
+}
+
+// parsedContainerUse: the TLV8 parser answers (nil, error) for a body it cannot parse (truncated item, short read). Every use of the
+// container it returns — a method call on it, handing it to a controller — lies behind the test that the parse succeeded; a use
+// above that test is a nil dereference that any peer can trigger with a two-byte body.
+func parsedContainerUse(c *core.Ctx, reach map[*ssa.Function]bool) {
+	n := 0
+	for _, f := range core.SortedFuncs(reach) {
+		for _, s := range core.FindCalls(f, func(i ssa.Instruction) bool { return core.IsCall(i, mod+"/util.NewTLV8ContainerFromReader") }) {
+			s := s
+			okFact := errNilFact(1, func(i ssa.Instruction) bool { return i == s })
+			fromParse := func(v ssa.Value) bool {
+				if v == nil {
+					return false
+				}
+				return core.SomeSource(v, func(sv ssa.Value) bool {
+					return core.CallResult(sv, 0, func(i ssa.Instruction) bool { return i == s }) != nil
+				})
+			}
+			uses, bad := 0, 0
+			core.Instrs(f, func(i ssa.Instruction) {
+				cc := core.CallOf(i)
+				if cc == nil || i == s {
+					return
+				}
+				used := cc.IsInvoke() && fromParse(cc.Value)
+				for _, a := range cc.Args {
+					if fromParse(a) {
+						used = true
+					}
+				}
+				if !used {
+					return
+				}
+				uses++
+				if !core.Dominated(i, okFact) {
+					bad++
+					c.Bad("parsed-container-use@"+fname(f), posOf(i), "the container returned by the TLV8 parser is used on a path where the parse error has not been tested to be nil: for a body that does not parse the container is nil and the handler panics")
+				}
+			})
+			n++
+			if bad == 0 {
+				c.OK("parsed-container-use@"+fname(f), posOf(s), "%d use(s) of the parsed container, each behind err == nil of the parse", uses)
+			}
+		}
+	}
+	if n == 0 {
+		c.Undecided("parsed-container-use", token.NoPos, "no handler parses a TLV8 body")
 	}
 }
